@@ -180,55 +180,58 @@ async def watcher(
             resource=resource, namespace=namespace,
             operator_paused=operator_paused,
         )
-        async for raw_event in stream:
+        # Close the stream (and the connection behind it) for sure when stopped in the middle of an event,
+        # instead of leaving the suspended generators to the garbage collector.
+        async with contextlib.aclosing(stream):
+            async for raw_event in stream:
 
-            # If the listing is over (even if it was empty), the resource kind is pre-indexed.
-            # At this moment, only the individual workers/processors can block the global readiness.
-            if raw_event is watching.Bookmark.LISTED:
-                if operator_indexed is not None and resource_indexed is not None:
-                    await operator_indexed.drop_toggle(resource_indexed)
+                # If the listing is over (even if it was empty), the resource kind is pre-indexed.
+                # At this moment, only the individual workers/processors can block the global readiness.
+                if raw_event is watching.Bookmark.LISTED:
+                    if operator_indexed is not None and resource_indexed is not None:
+                        await operator_indexed.drop_toggle(resource_indexed)
 
-            # Whatever is bookmarked there, don't let it go to the multiplexer. Handle it above.
-            if isinstance(raw_event, watching.Bookmark):
-                continue
+                # Whatever is bookmarked there, don't let it go to the multiplexer. Handle it above.
+                if isinstance(raw_event, watching.Bookmark):
+                    continue
 
-            # Skip BOOKMARK events from K8s: they carry no object identity (no uid/name/namespace),
-            # and are only useful for resource version tracking (already done in the watch stream).
-            if raw_event.get('type') == 'BOOKMARK':
-                continue
+                # Skip BOOKMARK events from K8s: they carry no object identity (no uid/name/namespace),
+                # and are only useful for resource version tracking (already done in the watch stream).
+                if raw_event.get('type') == 'BOOKMARK':
+                    continue
 
-            # Multiplex the raw events to per-resource workers/queues. Start the new ones if needed.
-            key: ObjectRef = (resource, get_uid(raw_event))
-            try:
-                # Feed the worker, as fast as possible, no extra activities.
-                streams[key].pressure.set()  # interrupt current sleeps, if any.
-                await streams[key].backlog.put(raw_event)
-            except KeyError:
+                # Multiplex the raw events to per-resource workers/queues. Start the new ones if needed.
+                key: ObjectRef = (resource, get_uid(raw_event))
+                try:
+                    # Feed the worker, as fast as possible, no extra activities.
+                    streams[key].pressure.set()  # interrupt current sleeps, if any.
+                    await streams[key].backlog.put(raw_event)
+                except KeyError:
 
-                # Block the operator's readiness for individual resource's index handlers.
-                # But NOT when the readiness is already achieved once! After that, ignore it.
-                # NB: Strictly before the worker starts -- the processor can be too slow, too late.
-                resource_object_indexed: aiotoggles.Toggle | None = None
-                if operator_indexed is not None and operator_indexed.is_on():
-                    operator_indexed = None
-                if operator_indexed is not None and resource_indexed is not None:
-                    resource_object_indexed = await operator_indexed.make_toggle(name=f"{key!r}")
+                    # Block the operator's readiness for individual resource's index handlers.
+                    # But NOT when the readiness is already achieved once! After that, ignore it.
+                    # NB: Strictly before the worker starts -- the processor can be too slow, too late.
+                    resource_object_indexed: aiotoggles.Toggle | None = None
+                    if operator_indexed is not None and operator_indexed.is_on():
+                        operator_indexed = None
+                    if operator_indexed is not None and resource_indexed is not None:
+                        resource_object_indexed = await operator_indexed.make_toggle(name=f"{key!r}")
 
-                # Start the worker, and feed it initially. Starting can be moderately slow.
-                streams[key] = Stream(backlog=asyncio.Queue(), pressure=asyncio.Event())
-                streams[key].pressure.set()  # interrupt current sleeps, if any.
-                await streams[key].backlog.put(raw_event)
-                await scheduler.spawn(
-                    name=f'worker for {key}',
-                    coro=worker(
-                        signaller=signaller,
-                        resource_indexed=resource_object_indexed,
-                        operator_indexed=operator_indexed,
-                        processor=processor,
-                        settings=settings,
-                        streams=streams,
-                        key=key,
-                    ))
+                    # Start the worker, and feed it initially. Starting can be moderately slow.
+                    streams[key] = Stream(backlog=asyncio.Queue(), pressure=asyncio.Event())
+                    streams[key].pressure.set()  # interrupt current sleeps, if any.
+                    await streams[key].backlog.put(raw_event)
+                    await scheduler.spawn(
+                        name=f'worker for {key}',
+                        coro=worker(
+                            signaller=signaller,
+                            resource_indexed=resource_object_indexed,
+                            operator_indexed=operator_indexed,
+                            processor=processor,
+                            settings=settings,
+                            streams=streams,
+                            key=key,
+                        ))
 
     except asyncio.CancelledError:
         if worker_error is None:
